@@ -52,6 +52,11 @@ def gen_ops():
     # sql_cover on subjects whose reading depends on how backslashes in string literals are treated
     add("run_sql_bs1", "sql_cover(fs)\nprobe(fs)", pt={"meas": "m", "tags": {}, "fields": {"fs": "SELECT * FROM files WHERE dir = 'C:\\tmp\\'"}})
     add("run_sql_bs2", "sql_cover(fs)\nprobe(fs)", pt={"meas": "m", "tags": {}, "fields": {"fs": "SELECT * FROM files WHERE dir = 'C:\\tmp\\' AND owner = 'bob' -- it's a comment"}})
+    # the point's time: a script that sets it, and an input point whose time is the zero time (the host gave none) and whose script
+    # leaves it alone - recycled point objects carry nothing over
+    add("run_default_time", 'add_key(ts, "2021-03-04 05:06:07")\ndefault_time(ts)\nprobe(fi)', pt=STD_PT)
+    add("run_zero_time", 'add_key(zt, 1)\nprobe(fi, zt)', pt=STD_PT)
+    ops[-1]["pt_time"] = "zero"
     # reads every name an earlier script assigned (they must all be the point's keys or nil here)
     add("run_ok", 'probe(r, x, k, c, kb, nf, t2, lvl, l, w, q, i, v, ev, cv, z, zz, y1)\nadd_key(r, "second")\nprobe(fi, fs, tg, fb, message, _)', pt=STD_PT)
     return ops
